@@ -169,7 +169,11 @@ impl ServerContext {
         let cancellations = self.cancellations.clone();
 
         tokio::spawn(async move {
-            let res = exec(cancel_token.clone()).await;
+            // run the handler in its own task so that a panic inside it is reported
+            // as a JoinError here instead of unwinding past the response below
+            let res = tokio::spawn(exec(cancel_token.clone()))
+                .await
+                .unwrap_or(None);
             if cancel_token.is_cancelled() {
                 let response = Response::new_err(
                     req_id.clone(),
